@@ -138,6 +138,13 @@ structure Variant where
   attrNoAlias : Bool := false
   /-- `C14-copied-attribute-prefix-declared.diff`: a copied namespaced attribute gets its prefix declared / re-prefixed -/
   copyAttrNs : Bool := false
+  /-- `C14-replace-attribute-with-same-expanded-name.diff`: `flushPending` drops a pending attribute whose expanded
+  name is that of a later one -/
+  dedupExpanded : Bool := false
+  /-- `C14-literal-attribute-keeps-namespace.diff`: `evaluateAVTs` re-prefixes a literal attribute whose prefix was re-bound -/
+  literalAttrResolve : Bool := false
+  /-- `C14-handler-own-bindings-first.diff`: `NamespacesHandler::getNamespace` / `copyExcludeResultPrefixes` -/
+  handlerOwnFirst : Bool := false
 deriving Repr, DecidableEq
 
 /-- the part of `XSLTEngineImpl` the property is about -/
@@ -157,7 +164,20 @@ def St.resultPrefix (s : St) (u : String) : Option String :=
 def St.isElementPending (s : St) : Bool := s.pendName.isSome
 
 def St.addDecl (s : St) (p u : String) : St := { s with ns := s.ns.addDeclaration p u }
-def St.addAtt (s : St) (n : QN) (v : String) : St := { s with pendAtts := addAttribute s.pendAtts n v }
+
+/-- expanded name of a namespaced pending attribute as the engine resolves it (`none`: no prefix, an `xmlns:` declaration,
+or an unbound prefix — not compared) -/
+def St.attKey (s : St) (a : Att) : Option (String × String) :=
+  if a.name.pfx = "" || a.name.pfx = "xmlns" then none
+  else (s.resultNs a.name.pfx).map (fun u => (u, a.name.loc))
+
+/-- `C14-replace-attribute-with-same-expanded-name.diff`, `addResultAttribute`: an attribute in a namespace that is set
+again is removed first, so that it is re-appended at the end (position = recency for the comparison in `flushPending`) -/
+def St.dropSameExpanded (s : St) (n : QN) : List Att :=
+  if s.v.dedupExpanded && n.pfx ≠ "" && n.pfx ≠ "xmlns" then s.pendAtts.filter (fun a => a.name ≠ n)
+  else s.pendAtts
+
+def St.addAtt (s : St) (n : QN) (v : String) : St := { s with pendAtts := addAttribute (s.dropSameExpanded n) n v }
 
 /-- `XSLTEngineImpl::addResultAttribute(attList = pending attributes, aname, value, fromCopy)` -/
 def St.addResultAttribute (s : St) (aname : QN) (value : String) (fromCopy : Bool := false) : St :=
@@ -184,10 +204,20 @@ def St.addResultAttribute (s : St) (aname : QN) (value : String) (fromCopy : Boo
       else s
   else s.addAtt aname value
 
+/-- keep, of the attributes with one key, only the last (`removeReplacedPendingAttributes`) -/
+def dedupLast {κ : Type} [DecidableEq κ] (key : Att → Option κ) : List Att → List Att
+  | [] => []
+  | a :: as =>
+    match key a with
+    | some k => if as.any (fun b => key b = some k) then dedupLast key as else a :: dedupLast key as
+    | none => a :: dedupLast key as
+
 /-- `flushPending` once the start-document has been flushed -/
 def St.flushPending (s : St) : St :=
   match s.pendName with
-  | some n => { s with out := Ev.start n s.pendAtts :: s.out, pendAtts := [], pendName := none }
+  | some n =>
+    { s with out := Ev.start n (if s.v.dedupExpanded then dedupLast s.attKey s.pendAtts else s.pendAtts) :: s.out,
+             pendAtts := [], pendName := none }
   | none => s
 
 def St.startElement (s : St) (n : QN) : St :=
@@ -389,6 +419,25 @@ def St.lreStart (s : St) (name : QN) (decls : List NS) (hDefault : Option String
 def St.addAtts (s : St) : List Att → St
   | [] => s
   | a :: as => (s.addResultAttribute a.name a.val).addAtts as
+
+/-- one literal attribute in `evaluateAVTs`; `ssNs` = `getNamespacesHandler().getNamespace(prefix)`.  With
+`C14-literal-attribute-keeps-namespace.diff` a prefix that no longer means `ssNs` in the result (an attribute set has
+re-bound it on this element) is replaced by a prefix bound to `ssNs` or an invented, declared one. -/
+def St.addLiteralAtt (s : St) (a : Att) (ssNs : Option String) : St :=
+  if !s.v.literalAttrResolve || a.name.pfx = "" || a.name.pfx = "xmlns" || a.name.pfx = "xml" then
+    s.addResultAttribute a.name a.val
+  else
+    match ssNs, s.resultNs a.name.pfx with
+    | some n, some b =>
+      if n = b then s.addResultAttribute a.name a.val
+      else
+        match s.resultPrefix n with
+        | some p2 =>
+          if p2 ≠ "" then s.addResultAttribute ⟨p2, a.name.loc⟩ a.val
+          else (s.unique.2.addResultAttribute ⟨"xmlns", s.unique.1⟩ n).addResultAttribute ⟨s.unique.1, a.name.loc⟩ a.val
+        | none =>
+          (s.unique.2.addResultAttribute ⟨"xmlns", s.unique.1⟩ n).addResultAttribute ⟨s.unique.1, a.name.loc⟩ a.val
+    | _, _ => s.addResultAttribute a.name a.val
 
 /-- `addResultNamespace(thePrefix, theName, theNode, pending, fOnlyIfPrefixNotPresent = true)` -/
 def St.addResultNamespace (s : St) (a : Att) : St :=
